@@ -10,7 +10,7 @@ from harness import core, py2lean, py2lean_ext, instantiate
 from harness.core import Outcome, f2b, b2f
 
 ID = "C07"
-LEAN_TARGETS = ["BeyondVerif.Props.C07"]
+LEAN_TARGETS = ["BeyondVerif.Props.C07", "BeyondVerif.Props.C07Native"]
 THEOREMS = [
     "BeyondVerif.C07.wrapper_eq_reference",
     "BeyondVerif.C07.wrapper_timedelta",
@@ -24,6 +24,23 @@ THEOREMS = [
     "BeyondVerif.C07.beta_gravity_constants",
     "BeyondVerif.C07.beta_a0_reference",
     "BeyondVerif.C07.beta_a0_kepler_law",
+    "BeyondVerif.C07.beta_consts_reference",
+    "BeyondVerif.C07.beta_unkozai_reference",
+    "BeyondVerif.C07.beta_s4_reference",
+    "BeyondVerif.C07.beta_drag_coef_reference",
+    "BeyondVerif.C07.beta_ecc_coef_reference",
+    "BeyondVerif.C07.beta_d_reference",
+    "BeyondVerif.C07.beta_dot_reference",
+    "BeyondVerif.C07.beta_nodecf_reference",
+    "BeyondVerif.C07.beta_init_reference",
+    "BeyondVerif.C07.beta_secular_reference",
+    "BeyondVerif.C07.beta_deltaM_guard",
+    "BeyondVerif.C07.beta_elements_reference",
+    "BeyondVerif.C07.beta_long_reference",
+    "BeyondVerif.C07.beta_kepler_fuel",
+    "BeyondVerif.C07.kepler_unit",
+    "BeyondVerif.C07.beta_short_reference",
+    "BeyondVerif.C07.beta_frame_reference",
     "BeyondVerif.Sgp4Wrap.ord2ymd_spec",
     "BeyondVerif.Sgp4Wrap.jday_ymd2ord",
 ]
@@ -31,21 +48,30 @@ LEVEL_TEXT = ("Lean theorems: (1) default propagator with the sgp4 package as a 
               "library's result on the original lines and the UTC calendar tuple of the instant (given C12's parse/write identity as hypothesis); the tuple "
               "(CPython's ord2ymd, modelled branch for branch) is a valid civil date that denotes the instant exactly for every date from year 1, and the "
               "library's own Julian-day formula reads it back correctly for 1901-2099; exact correspondence of the arguments really handed to the library. "
-              "(2) native Sgp4Beta translated from its Python AST on every run: orthonormal frame (radius, radial velocity, speed identities for all angles), "
-              "Kepler loop exit => Newton correction < 1e-12 for every fuel, WGS-72 constants, cached a0 = (k_e/n0'')^(2/3) as in the reference's initl "
-              "(true since fix 565c5a9); correspondence 1e-9 relative. 'Native = reference within 1 cm' is oracle-only (passes since 565c5a9).")
-LEVEL_NOTE = ("proof (partial): agreement of the native model with the third-party reference is not a theorem (two floating-point programs) - oracle only; "
-              "the library (SGP4/SDP4 theory itself) is a parameter; TLE text regeneration is C12's (hypothesis here); both past findings are fixed in /repo and pinned in corpus/C07_pinned.json; "
-              "R -> double gap covered by tolerance-bounded correspondence; Lean kernel + propext/Classical.choice/Quot.sound; py2lean translator and harness trusted")
-TECHNIQUE = ("Lean 4 proof: omega/decide on a branch-for-branch model of CPython's calendar split; linear_combination / induction on fuel / norm_num on formulas "
-             "translated from the Python AST; exact and tolerance differential correspondence; oracle against python-sgp4 called directly")
+              "(2) native Sgp4Beta translated from its Python AST on every run, cut into 12 pieces: orthonormal frame, Kepler loop exit => Newton correction "
+              "< 1e-12 for every fuel, WGS-72 constants, a0 = (k_e/n0'')^(2/3). (3) native model = reference theory over R, piece by piece, against a "
+              "hand-written transcription of python-sgp4's _initl/sgp4init/sgp4 near-Earth path (templates/Sgp4Ref.tpl) that is itself compared with the "
+              "package field by field on every run: un-Kozai, s/q0 switches at 156/98 km, C1 C3 C4 C5 D2-D4, secular rates, the whole initialisation "
+              "composed (beta_init_reference), secular+drag update with the guard 'delta_M applied iff e0 > 1e-4' pinned for all inputs, mean elements "
+              "at t (1e-6 floor, node, a, longitude up to whole turns), long-period terms with the 180-degree guard, short-period terms (unit-vector "
+              "identity of atan2's arguments proved), frame x1000. Correspondences 1e-9 relative; 'native = reference within 1 cm' end to end is the oracle.")
+LEVEL_NOTE = ("proof (partial): the two Kepler iterations are not equated (the reference clips corrections to 0.95 and applies the last one; both stop below 1e-12 - "
+              "the residual bound is a theorem), the compositions of propagate are plumbing tied by the correspondences, the reference's deep-space code and error exits "
+              "stay inside the library parameter; TLE text regeneration is C12's (hypothesis here); both past findings are fixed in /repo and pinned in corpus/C07_pinned.json; "
+              "R -> double gap covered by tolerance-bounded correspondences; Lean kernel + propext/Classical.choice/Quot.sound; py2lean translator and harness trusted")
+TECHNIQUE = ("Lean 4 proof: omega/decide on a branch-for-branch model of CPython's calendar split; ring / field_simp / linear_combination / induction on fuel / norm_num on formulas "
+             "translated from the Python AST, equated with a hand-written transcription of the reference implementation; exact and tolerance differential correspondences "
+             "(model vs Sgp4Beta, spec vs python-sgp4, wrapper arguments); directed generator hitting every guard of both implementations from both sides and every exact "
+             "field boundary, with the branch distribution observed on the real code by a line tracer; oracle against python-sgp4 called directly")
 TRUSTED = [
     "harness/py2lean.py + harness/py2lean_ext.py: translate Sgp4Beta.orbit (setter) and Sgp4Beta.propagate (attribute renaming, componentwise numpy 3-vectors, the for/break loop as fuel recursion, "
     "cut into pieces) and the gravity class named by Sgp4Beta.MODEL into Generated/Sgp4Beta{F,R}.lean on every run; statements not translated are an explicit list of exact source lines "
     "(date handling, object construction) and any other statement makes the extraction fail",
+    "lean/templates/Sgp4Ref.tpl (hand-written transcription of sgp4/propagation.py: _initl, sgp4init, sgp4 for method 'n'), tied to the installed package by the correspondence run "
+    "(24 satellite-record fields incl. isimp and the deep-space switch, mean elements am em om Om mm after a call, state; rtol 1e-9)",
     "lean/BeyondVerif/Model/Sgp4Wrap.lean (hand-written: CPython ord2ymd, strftime fields, wrapper control flow), tied by the exact correspondence run (arguments intercepted between beyond and the sgp4 package, stub and real library)",
     "the third-party package sgp4 2.27 (twoline2rv, Satellite.propagate, sgp4.propagation.sgp4) as the reference implementation of Vallado's SGP4/SDP4, WGS-72",
-    "CPython: datetime arithmetic, strftime, float(decimal text) correctly rounded (checked equal to Lean's Float.ofScientific on every sampled value)",
+    "CPython: datetime arithmetic, strftime, float(decimal text) correctly rounded (checked equal to Lean's Float.ofScientific on every sampled value); sys.settrace line events (branch distribution in the evidence only)",
     "numpy / libm double arithmetic vs R: tolerance 1e-9 relative",
 ]
 ASSUMPTIONS = [
@@ -54,21 +80,33 @@ ASSUMPTIONS = [
     "Earth-orientation data in the harness process: constant TAI-UTC = 37 s, UT1-UTC = -0.1234567 s (so that labels differ); no leap-second boundary is crossed",
     "theorems about the native model are over R; the implementation computes in IEEE doubles",
     "fields_jday is exact integer arithmetic; the library evaluates its formula in doubles (resolution 40 us at JD 2.45e6: the property's |v| x 50 us)",
+    "hypotheses of the native = reference theorems: e0^2 < 1, eta^2 < 1 (eta = a0 e0/(a0 - s); true whenever the perigee is above s = 78 km .. 20 km), a0 != 0, a > 0, mu != 0, 1 - e cos E != 0, "
+    "axN^2 + ayN^2 < 1 — all true in the property's domain (perigee >= 220 km); the reference's error exits (mean e >= 1 or < -0.001, nm <= 0, pl < 0, decayed) are not modelled",
 ]
 NOT_COVERED = [
-    "'the native SGP4 returns the same state as the reference within 1 cm where the reference uses its full near-Earth model': two floating-point programs, one third-party - no theorem; S-oracle only (native vs sgp4.propagation.sgp4 at the same minutes since epoch, tolerance 1 cm + |v| x 1 us); it passes since /repo 565c5a9 (before: 2-20 cm, finding C07-native-a0-series, fixed)",
-    "the SGP4/SDP4 theory itself (inside the library parameter `lib`), including deep-space resonance and lunar-solar terms",
-    "native model: no theorem about the secular / long-period / short-period formulas being Vallado's (only translated and compared numerically); objects whose drag polynomial changes the semi-major axis by more than 2 % (oracle) / 20 % (correspondence) within the interval are excluded from the native comparisons (tallied)",
+    "'the native SGP4 returns the same state as the reference within 1 cm' END TO END is the S-oracle (native vs sgp4.propagation.sgp4 at the same minutes since epoch, tolerance 1 cm + |v| x 1 us): "
+    "the theorems equate every piece over R except the Kepler iteration, and the R -> double gap of each side is only bounded by the 1e-9 correspondences; 1 cm is 1.4e-9 of the radius",
+    "the two Kepler iterations are not equated: the reference clips each correction to 0.95 and applies the last one, the native loop does neither; theorem: leaving the native loop through `break` means a Newton correction below 1e-12; "
+    "the generators reach loop exhaustion (10 passes) only outside the property's domain (tallied)",
+    "the SGP4/SDP4 theory itself (inside the library parameter `lib`), including deep-space resonance and lunar-solar terms and the reference's simplified drag model below 220 km (the native model has no such switch; outside the clause)",
+    "objects whose drag polynomial changes the semi-major axis by more than 2 % (oracle) / 20 % (correspondences) within the interval are excluded from the native comparisons (tallied)",
+    "the compositions sgp4Prop / refSgp4 (which output of one piece is handed to the next) are generated / hand-written plumbing: tied by the correspondences, composed in a theorem only for the initialisation (beta_init_reference)",
+    "Sgp4 re-binding after an in-place modification of the orbit (sgp4.py `_state != _bound_to`): not an orbit 'built from a TLE'; the branch is recorded (never taken) in the evidence",
     "double rounding of the seconds field beyond 'within 2^-48 s' (time_resolution takes the half-microsecond bound as hypothesis)",
 ]
 OPEN = [
     "Hinnant days_from_civil as a third independent reading of the tuple was planned and not done (ymd2ord and the library's jday are proved)",
+    "a composed theorem 'sgp4Prop = 1000 x refSgp4 whenever both Kepler loops return the same eccentric longitude' was not written (all pieces are proved)",
 ]
 RULE = ("correspondence: (a) 700/20000 edge datetimes 1957-2056 x 5 labels through the real Sgp4 with a stub library, (b) 300/8000 generated catalogue-like TLEs (all inclinations, e<=0.9, "
         "0.5-16.5 rev/day, |B*|<=1e-2, epochs 1973-2017, +-30 d, date or timedelta argument) through the real Sgp4 with the installed sgp4 package: arguments handed to twoline2rv / "
-        "satrec.propagate intercepted and compared exactly with the model tuple, result compared bit for bit with 1000 x library(model tuple); (c) 500/12000 TLEs x 2 dates: Sgp4Beta init values "
-        "and state vs the compiled Lean translation, rtol 1e-9. non-trivial = offset != 0; distinct = distinct request. oracle: default propagator vs sgp4 called directly on the original lines and "
-        "independently computed UTC fields (|v| x 50 us), the inputs of corpus/C07_pinned.json (past findings) first, timedelta argument, label independence (UTC/TAI/TT/GPS/UT1), native vs reference theory 1 cm in the full near-Earth domain")
+        "satrec.propagate intercepted and compared exactly with the model tuple, result compared bit for bit with 1000 x library(model tuple); (c) 3/24 rounds of the directed generator "
+        "(one TLE per FEATURE: every guard of sgp4beta.py and of the reference's sgp4init from both sides at field resolution, every exact field boundary) + 500/12000 catalogue-like TLEs x 2 dates: "
+        "Sgp4Beta init values and state vs the compiled Lean translation, rtol 1e-9; both sides of every guard of the current source must have been taken (guards read from the AST, taken side "
+        "observed by a line tracer on the real code) or the correspondence fails; (d) the same streams: reference spec vs python-sgp4 (record fields, mean elements, state), rtol 1e-9. "
+        "non-trivial = offset != 0; distinct = distinct request. oracle: pinned corpus, 4/24 rounds of the directed generator, 220/2500 catalogue-like TLEs: default propagator vs sgp4 called directly on the "
+        "original lines and independently computed UTC fields (|v| x 50 us), timedelta argument, label independence (UTC/TAI/TT/GPS/UT1), 3-line TLEs, native vs reference theory 1 cm in the full "
+        "near-Earth domain; branch distribution of the native code, the wrapper and the reference record in the evidence (keys branch*)")
 
 MU_KM = 398600.8          # WGS-72, km^3/s^2 (generator only: perigee heights of the generated TLEs)
 RE_KM = 6378.135
@@ -137,11 +175,15 @@ def gen_beta():
     parts.append(f"/-- name of the gravity model selected by `Sgp4Beta.MODEL` -/\ndef gravityModelName : String := \"{model}\"\n")
     ren = py2lean_ext.Rename({"self._init": "i_", "_i": "i_", "self.gravity": "g_"})
     # 2. the orbit setter -> sgp4Init
+    #    cut into: un-Kozai'd mean motion and semi-major axis | the s / q0 adjustment for low perigees | C1, C3 | C4, C5 | D2-D4 | secular rates
     tr = py2lean_ext.XTr()
+    tr.global_names = {"g_" + g for g in gnames}
     body = [ren.visit(st) for st in _body(setter, SKIP_INIT)]
-    txt = tr.block2(body, "[" + ", ".join("i_" + f for f in INIT_FIELDS) + "]")
-    parts.append(f"/-- `Sgp4Beta.orbit` setter: the cached `_init` values in the order {', '.join(INIT_FIELDS)} -/\n"
-                 f"def sgp4Init ({' '.join(ELEMS)} : R) : List R :=\n{py2lean.indent(txt)}\n")
+    fields = ["i_" + f for f in INIT_FIELDS]
+    text, init_info = py2lean_ext.chunks(tr, body, ["rp", "i_θ", "i_C4", "i_D2", "i_Mdot"], ["sgp4InitKozai", "sgp4InitS", "sgp4InitDrag", "sgp4InitEcc", "sgp4InitD", "sgp4InitDot"], [], "sgp4Init", ELEMS,
+                                         doc=f"`Sgp4Beta.orbit` setter: the cached `_init` values in the order {', '.join(INIT_FIELDS)}",
+                                         keep=fields, compose_result="[" + ", ".join(fields) + "]")
+    parts.append(text)
     # 3. propagate -> pieces
     tr = py2lean_ext.XTr()
 
@@ -154,12 +196,12 @@ def gen_beta():
     tr.loop_names = {id(st): "keplerLoop" for st in stmts if isinstance(st, ast.For)}
     tr.global_names = {"g_" + g for g in gnames}
     inputs = ELEMS + ["tdiff"] + ["i_" + f for f in INIT_FIELDS]
-    text, info = py2lean_ext.chunks(tr, stmts, ["ecosE", "vM"], ["sgp4Mean", "sgp4Short", "sgp4Frame"], ["vector"], "sgp4Prop", inputs,
+    text, info = py2lean_ext.chunks(tr, stmts, ["Mp", "β", "Epω", "ecosE", "vM"], ["sgp4Secular", "sgp4Elements", "sgp4Long", "sgp4Kepler", "sgp4Short", "sgp4Frame"], ["vector"], "sgp4Prop", inputs,
                                     doc="`Sgp4Beta.propagate` after the date handling: elements, minutes since epoch, cached init values ↦ [x, y, z, vx, vy, vz] in m, m/s")
     parts.append(text)
     parts.append("/-- setter followed by propagate -/\ndef sgp4Beta (" + " ".join(ELEMS) + " tdiff : R) : List R :=\n  match sgp4Init " + " ".join(ELEMS) + " with\n  | ["
                  + ", ".join("i_" + f for f in INIT_FIELDS) + "] => sgp4Prop " + " ".join(inputs) + "\n  | _ => []\n")
-    return "\n".join(parts), tr.loop_info, info
+    return "\n".join(parts), tr.loop_info, init_info + info
 
 
 def _subst(node, name, new):
@@ -288,6 +330,328 @@ def gen_offset_us(rng):
     return rng.randint(-30 * 86_400_000_000, 30 * 86_400_000_000)
 
 
+# ---------------------------------------------------------------- directed generator: branch points and exact field boundaries
+#
+# Both SGP4 implementations are full of guards (`e0 > 1e-4`, perigee < 156 / 98 / 220 km, the 225-minute deep-space test,
+# `e < 1e-6`, `1 + cos i > 1.5e-12`, the Kepler loop exit) and of quantities that vanish *exactly* at a field boundary
+# (sin i0 at 0.0000 deg, e0 at 0000000, B* at 00000-0 ...).  A uniformly drawn TLE never sits on such a value, so each of them
+# is produced deliberately here: one "feature" per TLE on a base object of a chosen regime, thresholds from BOTH sides at the
+# resolution of the TLE field (the two adjacent field values between which the reference's own classification flips).
+
+def fmt_tle(p):
+    """TLE text of the exact field values in `p` (written here, not by beyond)"""
+    ndots = f"{p['ndot']: 0.8f}".replace("0.", ".")
+    l1 = (f"1 {p['norad']:05d}U {p['cospar']:<8} {p['year'] % 100:02d}{p['day']:012.8f} {ndots:>10} {exp_field(p['nddm'], p['ndde'])} "
+          f"{exp_field(p['bm'], p['be'])} 0 {p['elnb']:>4}")
+    l2 = (f"2 {p['norad']:05d} {p['inc']:8.4f} {p['raan']:8.4f} {p['e7']:07d} {p['argp']:8.4f} {p['ma']:8.4f} {p['n8'] / 1e8:11.8f}{p['revs']:>5}")
+    l1 += str(checksum(l1))
+    l2 += str(checksum(l2))
+    assert len(l1) == 69 and len(l2) == 69, (l1, l2)
+    return l1, l2
+
+
+def _a_km(n):
+    return (MU_KM / (n * 2 * math.pi / 86400) ** 2) ** (1 / 3)
+
+
+def base_fields(rng, regime):
+    """generic (non-boundary) field values of an object of the given regime: every angle away from 0/90/180/270/360, e well
+    above 1e-4, a drag term large enough for the drag corrections to be metres after a few days"""
+    bstar = rng.choice([-1, 1, 1, 1]) * rng.uniform(1.0, 9.9) * rng.choice([1e-5, 1e-4, 1e-4, 1e-3])
+    if regime == "near-drag":          # low, nearly circular, full model: the drag terms (C1, C3, C4, C5, D2-D4, delta_M, delta_ω) are metres within days
+        hp = rng.uniform(235.0, 420.0)
+        ha = hp + rng.uniform(3.0, 150.0)
+        a = RE_KM + (hp + ha) / 2
+        e = (ha - hp) / (2 * a)
+        n = math.sqrt(MU_KM / a ** 3) * 86400 / (2 * math.pi)
+        bstar = rng.choice([-1, 1, 1, 1, 1, 1]) * rng.uniform(0.5, 6.0) * 1e-4
+    elif regime == "near-full":        # period < 225 min, perigee >= 220 km: the domain of the native-vs-reference clause
+        n = rng.uniform(6.6, 15.6)
+        emax = 1 - (RE_KM + rng.choice([235.0, 260.0, 400.0])) / _a_km(n)
+        e = rng.uniform(0.002, max(0.003, min(emax, 0.6))) if rng.random() < 0.6 else rng.uniform(0.0005, max(0.0006, min(emax, 0.02)))
+    elif regime == "near-low":         # perigee below 220 km: the reference drops to its simplified drag model
+        n = rng.uniform(9.0, 16.45)
+        e = max(2e-4, 1 - (RE_KM + rng.uniform(60.0, 215.0)) / _a_km(n))
+    else:                              # deep space
+        n = rng.choice([rng.uniform(0.5, 6.2), rng.uniform(0.95, 1.05), rng.uniform(1.95, 2.06)])
+        e = rng.uniform(0.0005, min(0.9, 1 - (RE_KM + 300.0) / _a_km(n)))
+    be = math.floor(math.log10(abs(bstar))) + 1
+    year = rng.randint(1973, 2017)
+    return {"norad": rng.randint(1, 99999), "cospar": f"{rng.randint(57, 99):02d}{rng.randint(1, 999):03d}{rng.choice(['A', 'B', 'AB'])}",
+            "year": year, "day": round(rng.uniform(2.0, 364.0), 8), "ndot": round(rng.uniform(-1e-5, 2e-4), 8),
+            "nddm": rng.choice([0, 0, rng.randint(10000, 99999)]), "ndde": 0, "bm": int(round(bstar / 10.0 ** be * 1e5)), "be": be,
+            "elnb": rng.randint(0, 9999), "inc": round(rng.uniform(5.0, 85.0) if rng.random() < 0.7 else rng.uniform(95.0, 175.0), 4),
+            "raan": round(rng.uniform(10, 350), 4), "e7": max(1, min(int(e * 1e7), 9000000)), "argp": round(rng.uniform(10, 350), 4),
+            "ma": round(rng.uniform(10, 350), 4), "n8": int(round(n * 1e8)), "revs": rng.randint(0, 99999)}
+
+
+def _fix(p):
+    if p["nddm"]:
+        p["ndde"] = p["ndde"] or -6
+    else:
+        p["ndde"] = 0
+    if abs(p["bm"]) >= 100000:
+        p["bm"] = 99999 if p["bm"] > 0 else -99999
+    if p["bm"] == 0:
+        p["be"] = 0
+    return p
+
+
+def straddle(p, field, lo, hi, pred):
+    """the two adjacent values v, v+1 of the integer field `field` in [lo, hi] between which the reference's own
+    classification `pred(satrec)` flips (bisection; pred must differ at lo and hi), or None"""
+    def at(v):
+        q = dict(p)
+        q[field] = v
+        return bool(pred(reference(*fmt_tle(q))))
+    a, b = at(lo), at(hi)
+    if a == b:
+        return None
+    while hi - lo > 1:
+        mid = (lo + hi) // 2
+        if at(mid) == a:
+            lo = mid
+        else:
+            hi = mid
+    return lo, hi
+
+
+def _perigee_km(sat):
+    return sat.altp * RE_KM
+
+
+def _thr_perigee(h, by):
+    """perigee height exactly on either side of `h` km (the reference's own `perige`), varying the eccentricity or the mean motion field"""
+    def f(p, rng, side):
+        if by == "e":
+            p["n8"] = int(round(rng.uniform(7.0, 15.4) * 1e8))
+            pair = straddle(p, "e7", 1, 8999999, lambda s: _perigee_km(s) < h)
+            if pair:
+                p["e7"] = pair[side]
+        else:
+            p["e7"] = int(rng.uniform({220.0: 0.0002, 156.0: 0.004, 98.0: 0.013}[h], 0.03) * 1e7)
+            pair = straddle(p, "n8", 1400000000, 1650000000, lambda s: _perigee_km(s) < h)
+            if pair:
+                p["n8"] = pair[side]
+        return bool(pair)
+    return f
+
+
+def _thr_period(p, rng, side):
+    """un-Kozai'd period exactly on either side of 225 min (the reference's deep-space switch)"""
+    p["e7"] = int(rng.uniform(0.001, 0.47 if rng.random() < 0.8 else 0.55) * 1e7)
+    pair = straddle(p, "n8", 600000000, 680000000, lambda s: s.method == "d")
+    if pair:
+        p["n8"] = pair[1 - side]      # deep space is the LOW mean-motion side
+    return bool(pair)
+
+
+def _set(**kv):
+    def f(p, rng, side):
+        p.update(kv)
+        return True
+    return f
+
+
+def _leap_day366(p, rng, side):
+    p["year"] = rng.choice([1976, 1980, 1996, 2000, 2004, 2016])
+    p["day"] = [366.0, 366.99999999][side]
+    return True
+
+
+def _year_end(p, rng, side):
+    p["year"] = rng.choice([1973, 1975, 1999, 2001, 2017])
+    p["day"] = [365.99999999, 365.0][side]
+    return True
+
+
+# (name, setter(p, rng, side) -> bool, base regimes cycled over).  `side` in {0, 1}: below / above a threshold, or two variants.
+FEATURES = [
+    ("inc=0.0000", _set(inc=0.0), None), ("inc=0.0001", _set(inc=0.0001), None), ("inc=180.0000", _set(inc=180.0), None),
+    ("inc=179.9999", _set(inc=179.9999), None), ("inc=90.0000", _set(inc=90.0), None),
+    ("inc=63.4349(1-5cos2=0)", _set(inc=63.4349), None), ("inc=116.5651", _set(inc=116.5651), None),
+    ("inc=54.7356(3cos2-1=0)", _set(inc=54.7356), None), ("inc=125.2644", _set(inc=125.2644), None),
+    ("inc<0.2rad(11.4592)", lambda p, rng, side: p.update(inc=[11.4591, 11.4592][side]) or True, None),
+    ("e=0000000", _set(e7=0), ["near-drag", "near-full", "near-low", "deep"]), ("e=0000001", _set(e7=1), ["near-drag", "near-full", "deep"]),
+    ("e=0000009(<1e-6)", _set(e7=9), ["near-drag", "near-full"]), ("e=0000010(=1e-6)", _set(e7=10), ["near-drag", "near-full"]), ("e=0000011", _set(e7=11), ["near-drag", "near-full"]), ("e=0000050", _set(e7=50), ["near-drag", "near-full"]),
+    ("e=0000999", _set(e7=999), ["near-drag", "near-full", "near-low", "deep"]), ("e=0001000(=1e-4)", _set(e7=1000), ["near-drag", "near-full", "near-low", "deep"]),
+    ("e=0001001", _set(e7=1001), ["near-drag", "near-full", "near-low", "deep"]),
+    ("bstar=00000-0", _set(bm=0, be=0), None), ("bstar=10000-9(1e-10)", _set(bm=10000, be=-9), None), ("bstar=00001-9(1e-14)", _set(bm=1, be=-9), None),
+    ("bstar=99999-2(max)", _set(bm=99999, be=-2), ["near-full", "near-drag", "deep"]), ("bstar=-99999-3", _set(bm=-99999, be=-3), None),
+    ("ndot=0", _set(ndot=0.0), None), ("ndot=-.00012345", _set(ndot=-0.00012345), None), ("ndot=.99999999", _set(ndot=0.99999999), None),
+    ("nddot=00000-0", _set(nddm=0, ndde=0), None), ("nddot=99999-1", _set(nddm=99999, ndde=-1), None), ("nddot=-10000-9", _set(nddm=-10000, ndde=-9), None),
+    ("raan=0.0000", _set(raan=0.0), None), ("raan=359.9999", _set(raan=359.9999), None), ("raan=180.0000", _set(raan=180.0), None),
+    ("argp=0.0000", _set(argp=0.0), None), ("argp=359.9999", _set(argp=359.9999), None), ("argp=180.0000", _set(argp=180.0), None),
+    ("argp=90.0000", _set(argp=90.0), None), ("argp=270.0000", _set(argp=270.0), None), ("argp=45.0000(cos2w=0)", _set(argp=45.0), None),
+    ("ma=0.0000", _set(ma=0.0), None), ("ma=359.9999", _set(ma=359.9999), None), ("ma=180.0000", _set(ma=180.0), None),
+    ("ma=90.0000", _set(ma=90.0), None),
+    ("all-angles=0", _set(raan=0.0, argp=0.0, ma=0.0), None), ("all-angles=359.9999", _set(raan=359.9999, argp=359.9999, ma=359.9999), None),
+    ("epoch-day=001.00000000", _set(day=1.0), None), ("epoch-day=001.00000001", _set(day=1.00000001), None),
+    ("epoch-leap-day-366", _leap_day366, None), ("epoch-year-end-365", _year_end, None),
+    ("epoch-year=2000", _set(year=2000), None), ("epoch-year=1999", _set(year=1999), None), ("epoch-year=1973", _set(year=1973), None),
+    ("epoch-year=2017", _set(year=2017), None), ("epoch-feb29", lambda p, rng, side: p.update(year=[1996, 2016][side], day=[60.0, 60.5][side]) or True, None),
+    ("mean-motion=16.5", _set(n8=1650000000, e7=300), ["near-low"]), ("mean-motion=0.5", _set(n8=50000000), ["deep"]),
+    ("perigee=220km(by e)", _thr_perigee(220.0, "e"), ["near-full"]), ("perigee=220km(by n)", _thr_perigee(220.0, "n"), ["near-full"]),
+    ("perigee=156km(by e)", _thr_perigee(156.0, "e"), ["near-low"]), ("perigee=156km(by n)", _thr_perigee(156.0, "n"), ["near-low"]),
+    ("perigee=98km(by e)", _thr_perigee(98.0, "e"), ["near-low"]), ("perigee=98km(by n)", _thr_perigee(98.0, "n"), ["near-low"]),
+    ("period=225min", _thr_period, ["near-full"]),
+    # a branch INSIDE the reference's deep-space code that depends on its mode of operation: Lyddane's modification for inclinations
+    # below 0.2 rad, where a node that has regressed through 0 is (afspc mode) or is not (improved mode, the library default) wrapped
+    ("deep-lyddane-node-through-0", lambda p, rng, side: p.update(inc=round(rng.uniform(0.5, 11.0), 4), raan=[0.0, round(rng.uniform(0.0, 3.0), 4)][side]) or True, ["deep"]),
+    ("e=max-for-perigee-220(kepler-loop)", lambda p, rng, side: p.update(n8=int(rng.uniform(6.5, 7.5) * 1e8), ma=[2.0, 358.0][side],
+                                                                           e7=int((1 - (RE_KM + 225.0) / _a_km(7.5)) * 1e7)) or True, ["near-full"]),
+    # far outside the domain on purpose: the drag polynomial leaves its range of validity, the native model computes NaN and its Kepler loop
+    # runs out of passes (the only way the generators found to leave that loop without `break`)
+    ("decayed(kepler-loop-exhausted)", _set(n8=1640000000, e7=50000, bm=99999, be=-2), ["near-low"]),
+    ("norad=00001,elnb=0,revs=0", _set(norad=1, elnb=0, revs=0), None), ("norad=99999,elnb=9999,revs=99999", _set(norad=99999, elnb=9999, revs=99999), None),
+]
+DEFAULT_REGIMES = ["near-drag", "near-full", "near-low", "deep"]
+
+
+def gen_directed(rng, k):
+    """k-th directed TLE: feature k mod len(FEATURES) on a base object whose regime and threshold side cycle with k // len(FEATURES);
+    every third round a second, randomly chosen feature is applied on top (pairs of boundaries).
+    returns (line1, line2, info) like gen_tle; info['feature'] names what was set"""
+    name, setter, regimes = FEATURES[k % len(FEATURES)]
+    rnd = k // len(FEATURES)
+    regimes = regimes or DEFAULT_REGIMES
+    regime = regimes[rnd % len(regimes)]
+    p = base_fields(rng, regime)
+    names = []
+    if rnd % 3 == 2:
+        n2, s2, _r = FEATURES[rng.randrange(len(FEATURES))]
+        if n2.split("=")[0].split("(")[0] != name.split("=")[0].split("(")[0] and s2(p, rng, rng.randrange(2)):
+            names.append(n2)
+    ok = setter(p, rng, rnd % 2)
+    names.insert(0, name + ("" if ok else "(threshold-not-reachable)"))
+    l1, l2 = fmt_tle(_fix(p))
+    info = info_of_lines(l1, l2)
+    info.update(regime="directed-" + regime, feature="+".join(names), side=rnd % 2, bstar=p["bm"] * 10.0 ** (p["be"] - 5))
+    return l1, l2, info
+
+
+def gen_directed_offsets(rng, info=None):
+    """dates for a directed TLE: one well before and one well after epoch (drag and secular terms have grown), sometimes a boundary of the +-30 d window"""
+    day = 86_400_000_000
+    a = -rng.randint(1 * day, 30 * day) if rng.random() < 0.85 else rng.choice([-30 * day, -1, 0])
+    if info is not None and info.get("feature", "").startswith("decayed"):
+        a = -rng.randint(12 * day, 30 * day)
+    b = rng.randint(1 * day, 30 * day) if rng.random() < 0.85 else rng.choice([30 * day, 1, 0])
+    return [a, b]
+
+
+class BranchProbe:
+    """Which side of every guard of the native model a call took — observed on the REAL code, nothing modified: the `if`,
+    conditional expressions and `for … break` loops of `Sgp4Beta.orbit` (setter) and `Sgp4Beta.propagate` are read from the
+    AST of the repository's sgp4beta.py; a line tracer installed around the call records the executed lines (an `if` was
+    taken iff the first line of its body ran) and the local variables at return (conditional expressions are re-evaluated on
+    them, the loop counter tells how the loop was left)."""
+
+    def __init__(self, which="native"):
+        if which == "native":
+            tree, _model, setter, prop = beta_source()
+            self.file = os.path.realpath(BETA_PY)
+        else:       # the default propagator: beyond/propagators/sgp4.py, class Sgp4
+            self.file = os.path.realpath(os.path.join(core.REPO, "beyond", "propagators", "sgp4.py"))
+            cls = py2lean.find_function(ast.parse(open(self.file).read()), "Sgp4")
+            setter = next(n for n in cls.body if isinstance(n, ast.FunctionDef) and n.name == "orbit" and any("setter" in ast.unparse(d) for d in n.decorator_list))
+            prop = next(n for n in cls.body if isinstance(n, ast.FunctionDef) and n.name == "propagate")
+        self.sites = []          # (function, kind, text, test line, first body line, code / loop variable)
+        for fn, fname in ((setter, "setter"), (prop, "propagate")):
+            for node in ast.walk(fn):
+                if isinstance(node, ast.If):
+                    brk = len(node.body) == 1 and isinstance(node.body[0], ast.Break)
+                    self.sites.append((fname, "loop-break" if brk else "if", ast.unparse(node.test), node.test.lineno, node.body[0].lineno, None))
+                elif isinstance(node, ast.IfExp):
+                    self.sites.append((fname, "ifexp", ast.unparse(node.test), node.test.lineno, None, compile(ast.Expression(node.test), "<guard>", "eval")))
+                elif isinstance(node, ast.For) and isinstance(node.target, ast.Name):
+                    self.sites.append((fname, "for", "for " + ast.unparse(node.target) + " in " + ast.unparse(node.iter), node.lineno, None, node.target.id))
+        self.codes = {"orbit": "setter", "propagate": "propagate"}
+        self.lines = {}
+        self.locals = {}
+
+    def _tracer(self, frame, event, arg):
+        if event != "call" or os.path.realpath(frame.f_code.co_filename) != self.file or frame.f_code.co_name not in self.codes:
+            return None
+        fname = self.codes[frame.f_code.co_name]
+        if fname == "setter" and frame.f_code.co_argcount != 2:
+            return None          # the getter
+        seen = self.lines.setdefault(fname, set())
+
+        def local(frame, event, arg):
+            if event == "line":
+                seen.add(frame.f_lineno)
+            elif event == "return":
+                self.locals[fname] = (dict(frame.f_locals), frame.f_globals)
+            return local
+        return local
+
+    @contextlib.contextmanager
+    def watch(self):
+        import sys
+        self.lines, self.locals = {}, {}
+        old = sys.gettrace()
+        sys.settrace(self._tracer)
+        try:
+            yield self
+        finally:
+            sys.settrace(old)
+
+    def outcomes(self):
+        """{guard label: 'T' | 'F'} for the guards reached during the watched calls"""
+        res = {}
+        for fname, kind, text, tline, bline, code in self.sites:
+            if fname not in self.lines or tline not in self.lines[fname]:
+                continue
+            if kind == "for":
+                loc, _g = self.locals.get(fname, ({}, {}))
+                if isinstance(loc.get(code), int):
+                    res[f"{fname}: {text}: passes"] = loc[code] + 1
+                continue
+            if kind == "ifexp":
+                loc, glob = self.locals.get(fname, ({}, {}))
+                try:
+                    v = bool(eval(code, glob, loc))
+                except Exception:
+                    continue
+            else:
+                v = bline in self.lines[fname]
+            res[f"{fname}: {text}"] = "T" if v else "F"
+        return res
+
+    def labels(self):
+        """the two-sided guards: every `if`, conditional expression and loop exit"""
+        return [f"{fname}: {text}" for fname, k, text, *_ in self.sites if k != "for"]
+
+
+_probes = {}
+
+
+def probe(which):
+    if which not in _probes:
+        _probes[which] = BranchProbe(which)
+    return _probes[which]
+
+
+def tally_branches(out, prefix, outcomes, extra=None):
+    for k, v in outcomes.items():
+        out.tally(f"{prefix}[{k}]={v}")
+    for k, v in (extra or {}).items():
+        out.tally(f"{prefix}[{k}]={v}")
+
+
+def reference_branches(sat):
+    """the reference's own branch decisions for a satellite record (its initialisation), read from the record"""
+    perige = sat.altp * RE_KM
+    b = {"ref: method": sat.method, "ref: isimp": sat.isimp, "ref: ecco > 1.0e-4": sat.ecco > 1.0e-4,
+         "ref: perige": "<98" if perige < 98 else "<156" if perige < 156 else "<220" if perige < 220 else ">=220",
+         "ref: fabs(cosio+1.0) > 1.5e-12": abs(math.cos(sat.inclo) + 1.0) > 1.5e-12}
+    if sat.method == "d":
+        b["ref: irez"] = sat.irez
+        b["ref: lyddane(inclo < 0.2)"] = sat.inclo < 0.2
+    return b
+
+
 @contextlib.contextmanager
 def eop(tai_utc=37.0, ut1_utc=-0.1234567):
     """constant Earth-orientation record for every date (harness process only): TAI-UTC = 37 s so that the UTC/TAI/TT/GPS
@@ -405,8 +769,11 @@ def check_tle(out, rng, l1, l2, info, offsets):
     from beyond.dates import Date, timedelta
     from beyond.propagators.sgp4beta import Sgp4Beta
     inp0 = {"line1": l1, "line2": l2}
+    name = info.get("name")
+    if name:
+        inp0["name"] = name
     try:
-        tle = Tle(l1 + "\n" + l2)
+        tle = Tle((name + "\n" if name else "") + l1 + "\n" + l2)
         orb = tle.orbit()
     except Exception as e:
         out.count(key=(l1, l2), kind="tle-rejected")
@@ -416,9 +783,12 @@ def check_tle(out, rng, l1, l2, info, offsets):
     deep = sat.method == "d"
     full = (not deep) and sat.isimp == 0
     model = "sdp4" if deep else ("sgp4-full" if full else "sgp4-simple")
+    tally_branches(out, "branch", reference_branches(sat))
+    if info.get("feature"):
+        out.tally("directed-feature=" + info["feature"].split("+")[0] + f"/side{info.get('side', 0)}/" + model)
     # the wrapper regenerates the TLE text from the orbit (Tle.from_orbit): that must succeed for the propagator to exist at all
     try:
-        regen = Tle.from_orbit(orb).text.splitlines()
+        regen = Tle.from_orbit(orb).text.splitlines()[-2:]
     except Exception as e:
         out.count(key=(l1, l2), kind="wrapper-regen", result="raises")
         out.fail(regen_family(l1, l2, e), "default SGP4 propagator cannot be initialised: regenerating the TLE text of a valid TLE raises (the reference accepts the original lines)",
@@ -439,7 +809,9 @@ def check_tle(out, rng, l1, l2, info, offsets):
             continue
         # 1. the default propagator equals the reference on the original lines at that instant
         try:
-            got = [float(x) for x in orb.propagate(date)]
+            with probe("wrapper").watch() as pw:
+                got = [float(x) for x in orb.propagate(date)]
+            tally_branches(out, "branch-wrapper", pw.outcomes())
         except Exception as e:
             if tiny_fields(l1) and regen != [l1, l2]:
                 out.fail(regen_family(l1, l2, e), "default SGP4 propagator cannot be initialised: the TLE text it regenerates for a valid TLE is rejected by the sgp4 library (the reference accepts the original lines)",
@@ -455,7 +827,9 @@ def check_tle(out, rng, l1, l2, info, offsets):
                      inp, observed=got, expected=exp, dpos_m=dp, tol_m=tol_pos(speed))
         # 2. timedelta argument = the same instant
         if label == "UTC":
-            got2 = [float(x) for x in orb.propagate(timedelta(microseconds=off))]
+            with probe("wrapper").watch() as pw:
+                got2 = [float(x) for x in orb.propagate(timedelta(microseconds=off))]
+            tally_branches(out, "branch-wrapper", pw.outcomes())
             dp, dv = dist(got2, exp)
             out.count(key=(l1, off, "td"), nontrivial=off != 0, kind="wrapper-timedelta")
             if not (dp <= tol_pos(speed) and dv <= acc * 50e-6 + 1e-9):
@@ -471,9 +845,13 @@ def check_tle(out, rng, l1, l2, info, offsets):
             continue
         # 4. native implementation: same state as the reference theory within 1 cm where the reference uses its full near-Earth model
         nat = Sgp4Beta()
-        nat.orbit = orb
         try:
-            gotn = [float(x) for x in nat.propagate(date)]
+            with probe("native").watch() as pn:
+                nat.orbit = orb
+                gotn = [float(x) for x in nat.propagate(date)]
+            if full:
+                tally_branches(out, "branch-native-in-domain", pn.outcomes(), {"C3 == 0 and e0 > 1e-4": bool(nat._init.C3 == 0 and info["e"] > 1e-4),
+                                                                                "bstar == 0": float(orb.bstar) == 0.0})
         except Exception as e:
             if full:
                 out.fail(family_of(info, off, "native-raises-" + type(e).__name__), "native SGP4 raises inside its domain", inp, observed=repr(e))
@@ -499,10 +877,13 @@ def check_tle(out, rng, l1, l2, info, offsets):
                         fam = "native-vs-reference:a0-series"
                 out.fail(fam, "native SGP4 differs from the reference by more than 1 cm inside the full near-Earth model's domain",
                          inp, observed=gotn, expected=expn, dpos_m=dp, dvel_ms=dv)
-        # 5. label independence of the native model
+        # 5. label independence of the native model (outside its domain the native model may return NaN — decayed object,
+        #    eccentricity driven above 1 by the drag polynomial —: then both labels must)
         goto = [float(x) for x in nat.propagate(other)]
         dp, dv = dist(goto, gotn)
-        if not dp <= speed * 2e-6 + 1e-6:
+        if not all(map(math.isfinite, gotn)) and not all(map(math.isfinite, goto)) and not (full and sane):
+            out.tally("native-label=non-finite-for-both-labels-outside-the-domain")
+        elif not dp <= speed * 2e-6 + 1e-6:
             out.fail(family_of(info, off, "native-label"), "native SGP4 gives different states for two labels of the same instant", dict(inp, other=str(other)), observed=goto, expected=gotn, dpos_m=dp)
 
 
@@ -540,8 +921,20 @@ def oracle(ctx, widened):
     N = 2500 if (widened or ctx.thorough) else 220
     with eop():
         pinned_cases(out, rng)
+        # every branch point / exact field boundary deliberately, thresholds from both sides (gen_directed)
+        for k in range((24 if (widened or ctx.thorough) else 4) * len(FEATURES)):
+            l1, l2, info = gen_directed(rng, k)
+            if rng.random() < 0.15:
+                info["name"] = rng.choice(["ISS (ZARYA)", "0 VANGUARD 1", "X"])
+            offsets = []
+            for off in gen_directed_offsets(rng, info):
+                label = rng.choice(LABELS)
+                offsets.append((off, label, rng.choice([x for x in LABELS if x != label])))
+            check_tle(out, rng, l1, l2, info, offsets)
         for _ in range(N):
             l1, l2, info = gen_tle(rng)
+            if rng.random() < 0.1:
+                info["name"] = rng.choice(["ISS (ZARYA)", "0 VANGUARD 1", "X"])
             offsets = []
             for _k in range(2):
                 label = rng.choice(LABELS)
@@ -558,6 +951,8 @@ def replay(f):
     i = f["input"]
     l1, l2 = i["line1"], i["line2"]
     info = info_of_lines(l1, l2)
+    if i.get("name"):
+        info["name"] = i["name"]
     label = i.get("label", "UTC")
     offs = [(i.get("offset_us", 0), label, o) for o in LABELS if o != label]
     with eop():
@@ -577,13 +972,14 @@ class Recorder:
         self.lines = None
         self.calls = []
 
-    def twoline2rv(self, l1, l2, const):
+    def twoline2rv(self, l1, l2, const, *extra, **kw):
         from sgp4.io import twoline2rv
         from sgp4.earth_gravity import wgs72
         self.lines = [l1, l2]
         self.const_is_wgs72 = const is wgs72
+        self.extra = (extra, kw)          # the model hands exactly (line1, line2, wgs72) to the library: its default mode of operation
         rec = self
-        sat = None if self.stub else twoline2rv(l1, l2, const)
+        sat = None if self.stub else twoline2rv(l1, l2, const, *extra, **kw)
 
         class Proxy:
             def propagate(self, *args):
@@ -700,6 +1096,9 @@ def wrapper_cases(ctx, out):
             continue
         if not rec.const_is_wgs72:
             out.fail("wrapper-gravity", "twoline2rv is not called with the WGS-72 constants", inp, observed="other", expected="wgs72")
+        if rec.extra != ((), {}):
+            out.fail("wrapper-opsmode", "twoline2rv is called with more than (line1, line2, wgs72): the reference is the library in its default (improved) mode of operation",
+                     inp, observed=repr(rec.extra), expected="no further argument")
         if kind == "stub":
             expect = [1000.0, -2000.0, 3500.0, -4000.0, 5000.0, 6250.0]
         else:
@@ -723,16 +1122,31 @@ def native_cases(ctx, out):
     from beyond.propagators.sgp4beta import Sgp4Beta
     rng = ctx.rng
     reqs, meta = [], []
+    pn = probe("native")
+    seen = {}
+
+    def note(outcomes):
+        tally_branches(out, "branch-native", outcomes)
+        for g, v in outcomes.items():
+            seen.setdefault(g, set()).add(v)
     with eop():
+        n_dir = ctx.n(3, 24) * len(FEATURES)
         k = 0
-        while k < ctx.n(500, 12000):
-            l1, l2, info = gen_tle(rng)
-            if info["n"] < 6.4 and rng.random() < 0.9:
-                continue        # the native model has no deep-space part; a few such inputs are kept (it computes the same formulas on them)
+        while k < n_dir + ctx.n(500, 12000):
+            if k < n_dir:
+                # every branch point / exact field boundary deliberately, thresholds from both sides (gen_directed)
+                l1, l2, info = gen_directed(rng, k)
+                out.tally("native-directed-feature=" + info["feature"].split("+")[0] + f"/side{info['side']}")
+            else:
+                l1, l2, info = gen_tle(rng)
+                if info["n"] < 6.4 and rng.random() < 0.9:
+                    continue        # the native model has no deep-space part; a few such inputs are kept (it computes the same formulas on them)
             k += 1
             orb = Tle(l1 + "\n" + l2).orbit()
             nat = Sgp4Beta()
-            nat.orbit = orb
+            with pn.watch():
+                nat.orbit = orb
+            note(pn.outcomes())
             elems = [float(x) for x in orb] + [float(orb.bstar)]
             init = [float(getattr(nat._init, f)) for f in INIT_FIELDS]
             reqs.append("sgp4init " + " ".join(f2b(x) for x in elems))
@@ -740,8 +1154,8 @@ def native_cases(ctx, out):
             low = (init[2] * (1 - elems[2]) - 1) * RE_KM
             out.count(key=(l1, l2, "init"), kind="native-init", perigee="<98" if low < 98 else "<156" if low < 156 else ">=156", ecc="e<=1e-4" if elems[2] <= 1e-4 else "e>1e-4",
                       retro=info["inc"] > 90)
-            for _j in range(2):
-                off = gen_offset_us(rng)
+            offs = gen_directed_offsets(rng, info) if info.get("feature") and (rng.random() < 0.7 or info["feature"].startswith("decayed")) else [gen_offset_us(rng), gen_offset_us(rng)]
+            for off in offs:
                 label = rng.choice(LABELS)
                 use_td = rng.random() < 0.2
                 if use_td:
@@ -752,7 +1166,9 @@ def native_cases(ctx, out):
                     if label != "UTC":
                         arg = arg.change_scale(label)
                     tdiff = (arg - orb.date).total_seconds() / 60.0
-                real = [float(x) for x in nat.propagate(arg)]
+                with pn.watch():
+                    real = [float(x) for x in nat.propagate(arg)]
+                note(pn.outcomes())
                 ii = nat._init
                 tempa = 1 - ii.C1 * tdiff - ii.D2 * tdiff ** 2 - ii.D3 * tdiff ** 3 - ii.D4 * tdiff ** 4
                 if not abs(tempa - 1) < 0.2:
@@ -764,6 +1180,23 @@ def native_cases(ctx, out):
                 meta.append(("prop", real, {"line1": l1, "line2": l2, "offset_us": off, "label": label, "tdiff_min": tdiff}, info))
                 out.count(key=(l1, l2, off), nontrivial=off != 0, kind="native-propagate", sign="t<0" if off < 0 else "t>=0", ecc="e<=1e-4" if elems[2] <= 1e-4 else "e>1e-4",
                           retro=info["inc"] > 90, arg="timedelta" if use_td else "date", deep=info["n"] < 6.4)
+        # what the real code rejects: an orbit that is not in TLE form, a date that is neither a Date nor a timedelta
+        cart = orb.copy(form="cartesian")
+        for what, call in (("setter: non-TLE orbit", lambda: setattr(Sgp4Beta(), "orbit", cart)), ("propagate: float argument", lambda: nat.propagate(12.5))):
+            try:
+                with pn.watch():
+                    call()
+                out.fail("native-contract", f"{what} is accepted by Sgp4Beta (the model has no value for it)", what, observed="returned", expected="TypeError")
+            except TypeError:
+                note(pn.outcomes())
+                out.count(key=what, kind="native-rejects", what=what)
+    # the generator must have driven the real code through both sides of every guard of the source as it is NOW (guards are read
+    # from the AST on every run): a guard added or reworded by a maintainer that the directed generator does not reach from both
+    # sides makes this correspondence incomplete, and the check says so instead of passing
+    for g in pn.labels():
+        if seen.get(g, set()) != {"T", "F"}:
+            out.fail("native-branch-coverage", f"guard `{g}` of sgp4beta.py was only driven to {sorted(seen.get(g, set()))} by the generators: extend FEATURES", g,
+                     observed=sorted(seen.get(g, set())), expected=["F", "T"])
     reqs.append("sgp4beta 1 2 3")
     meta.append(("bad", None, None, None))
     replies = core.Driver().run(reqs)
@@ -795,8 +1228,91 @@ def native_cases(ctx, out):
             out.sample({"request": req[:60] + "…", "impl": real, "model": model}, limit=4)
 
 
+# ---------------------------------------------------------------- correspondence (3): the hand-written reference spec vs the sgp4 package
+
+REF_FIELDS = ["isimp", "deep", "no_unkozai", "a", "eta", "cc1", "cc3", "cc4", "cc5", "mdot", "argpdot", "nodedot", "omgcof", "xmcof", "nodecf", "t2cof", "xlcof", "aycof",
+              "d2", "d3", "d4", "t3cof", "t4cof", "t5cof"]
+
+
+def angle_close(a, b, atol):
+    d = (a - b) % (2 * math.pi)
+    return min(d, 2 * math.pi - d) <= atol
+
+
+def refspec_cases(ctx, out):
+    """`templates/Sgp4Ref.tpl` (the transcription of the reference's near-Earth path that the theorems equate the native
+    model with) against python-sgp4 itself: every coefficient `sgp4init` stores in the satellite record, the model switches
+    (isimp, deep space), and for objects in the full near-Earth model the mean elements after `sgp4(satrec, t)` and the state"""
+    from sgp4.propagation import sgp4 as core_sgp4
+    rng = ctx.rng
+    reqs, meta = [], []
+    n_dir = ctx.n(3, 24) * len(FEATURES)
+    for k in range(n_dir + ctx.n(300, 6000)):
+        l1, l2, info = gen_directed(rng, k) if k < n_dir else gen_tle(rng)
+        sat = reference(l1, l2)
+        el = [sat.ecco, sat.inclo, sat.nodeo, sat.argpo, sat.mo, sat.no_kozai, sat.bstar]
+        deep, full = sat.method == "d", sat.method == "n" and sat.isimp == 0
+        reqs.append("refinit " + " ".join(f2b(x) for x in (sat.ecco, sat.inclo, sat.argpo, sat.no_kozai, sat.bstar)))
+        exp = {f: getattr(sat, f, None) for f in REF_FIELDS}
+        exp.update(deep=1.0 if deep else 0.0, isimp=1.0 if (sat.isimp and not deep) or (deep and (sat.altp + 1.0) < 220.0 / RE_KM + 1.0) else 0.0)
+        if not full:
+            for f in ("d2", "d3", "d4", "t3cof", "t4cof", "t5cof"):
+                exp[f] = None          # only set by the package in the full model
+        if deep:
+            exp["xlcof"] = exp["aycof"] = None     # overwritten by every call of sgp4() for deep-space objects
+        exp["cc3"] = None              # a local of sgp4init (omgcof = bstar cc3 cos argpo is stored)
+        meta.append(("init", exp, {"line1": l1, "line2": l2}))
+        out.count(key=(l1, l2, "refinit"), kind="refspec-init", model="sdp4" if deep else "sgp4-full" if full else "sgp4-simple", **{"ecco>1e-4": sat.ecco > 1e-4},
+                  perige="<98" if sat.altp * RE_KM < 98 else "<156" if sat.altp * RE_KM < 156 else "<220" if sat.altp * RE_KM < 220 else ">=220",
+                  xlcof_guard=abs(math.cos(sat.inclo) + 1.0) > 1.5e-12)
+        if not full:
+            continue
+        for off in (gen_directed_offsets(rng, info) if k < n_dir else [gen_offset_us(rng), gen_offset_us(rng)]):
+            t = off / 60e6
+            r, v = core_sgp4(sat, t)
+            if r is False or sat.error != 0:
+                sat.error = 0
+                out.tally("refspec-sgp4=reference-error-skipped")
+                continue
+            tempa = 1 - sat.cc1 * t - sat.d2 * t ** 2 - sat.d3 * t ** 3 - sat.d4 * t ** 4
+            if not abs(tempa - 1) < 0.2:
+                out.tally("refspec-sgp4=drag-polynomial-blown-up-skipped")
+                continue
+            reqs.append("refsgp4 " + " ".join(f2b(x) for x in el + [t]))
+            meta.append(("sgp4", {"am": sat.am, "em": sat.em, "om": sat.om, "Om": sat.Om, "mm": sat.mm, "state": list(r) + list(v)}, {"line1": l1, "line2": l2, "tsince_min": t}))
+            out.count(key=(l1, l2, off, "refsgp4"), nontrivial=off != 0, kind="refspec-sgp4", sign="t<0" if t < 0 else "t>=0", em_floor=sat.em == 1e-6, **{"ecco>1e-4": sat.ecco > 1e-4})
+    replies = core.Driver().run(reqs)
+    for req, (kind, exp, inp), rep in zip(reqs, meta, replies):
+        if not rep or not rep[0].isdigit():
+            out.fail("refspec", "reference spec rejected the request", inp, expected=rep)
+            continue
+        got = [b2f(t) for t in rep.split()]
+        if kind == "init":
+            if len(got) != len(REF_FIELDS):
+                out.fail("refspec-init", "reference spec returned a different number of values", inp, observed=exp, expected=got)
+                continue
+            bad = [f for f, g in zip(REF_FIELDS, got) if exp[f] is not None and not core.close(float(exp[f]), g, rtol=1e-9, atol=1e-300)]
+            if bad:
+                out.fail("refspec-init", f"satellite record fields {bad} of python-sgp4 differ from the reference spec (templates/Sgp4Ref.tpl)", inp,
+                         observed={f: exp[f] for f in bad}, expected={f: g for f, g in zip(REF_FIELDS, got) if f in bad})
+        else:
+            if len(got) != 11:
+                out.fail("refspec-sgp4", "reference spec returned a different number of values", inp, observed=exp, expected=got)
+                continue
+            am, em, argpm, nodem, mm = got[:5]
+            st = got[5:]
+            ok = (core.close(exp["am"], am, rtol=1e-9) and core.close(exp["em"], em, rtol=1e-9, atol=1e-13) and angle_close(exp["om"], argpm, 1e-9)
+                  and angle_close(exp["Om"], nodem, 1e-9) and angle_close(exp["mm"], mm, 1e-9))
+            dp, dv = dist(exp["state"], st)
+            if not (ok and dp <= 1e-9 * norm(st[:3]) and dv <= 1e-9 * norm(st[3:])):
+                out.fail("refspec-sgp4", "mean elements or state of python-sgp4's sgp4() differ from the reference spec (templates/Sgp4Ref.tpl)", inp,
+                         observed=exp, expected={"am": am, "em": em, "argpm": argpm, "nodem": nodem, "mm": mm, "state": st})
+            out.sample({"request": req[:50] + "…", "python-sgp4": exp["state"], "spec": st}, limit=2)
+
+
 def correspondence(ctx):
     out = Outcome()
     wrapper_cases(ctx, out)
     native_cases(ctx, out)
+    refspec_cases(ctx, out)
     return out
